@@ -41,6 +41,12 @@ def programs():
                                          "overloads": [["x", {"expr": O("B")}], ["y", {"expr": {"k": "tmpl", "text": "t{C}", "params": []}}]]},
                                      d2={"args": [["a", O("A", dk="const", dv=0)]], "dispatch": O("D", dk="const", dv="x"),
                                          "overloads": [["x", {"expr": O("S.X", dk="const", dv="sx")}], ["y", {"expr": O("E", dk="const", dv=1)}]]}))
+    # a skipped coalesce member that is a Map whose iterables cannot be evaluated: what the caller holds under a MAPPED
+    # key (and what that refers to) is no dependency - keys() must be stable under restriction to keys()
+    add("map-static-explain-outer-values", prog({"k": "cached", "spec": {"k": "coalesce", "members": [
+        {"k": "apply", "n": 8, "fn": "f1", "src": {"k": "map", "body": O("A", dk="const", dv=0),
+                                                   "iters": [["S.Y", C(["b", "b"])], ["A", C([])], ["T.X", O("L")]]}},
+        {"k": "apply", "n": 9, "fn": "truthy", "src": C(0)}]}}))
     # a Map over several dotted keys of one section: every assignment overrides all of them (siblings are merged, not replaced)
     add("map-sibling-section-keys", prog({"k": "apply", "n": 9, "fn": "f1", "src": {"k": "map", "body": {"k": "tuple", "items": [O("S.X", dk="const", dv="dx"), O("S.Y", dk="const", dv="dy"), O("S")]},
                                           "iters": [["S.X", {"k": "list", "items": [C(1), C(2)]}], ["A", {"k": "list", "items": [C("a")]}], ["S.Y", {"k": "list", "items": [C(10)]}]]}}))
@@ -193,6 +199,7 @@ def dictionaries():
         {"A": None, "B": 1, "E": None, "C": None, "S": {"X": 1, "Y": 1}},
         {"A": None, "B": 2, "E": None, "C": None, "S": {"X": 2, "Y": 2}},
         {"A": None, "E": None, "C": None},
+        {"A": ["p{T.X}q"], "B": ["{A}", "a"], "C": False, "T": {"X": ["{C}", 2]}},
         {"D": "x"},
         {"D": ["x"], "E": {"K": "x"}},
         {"D": ["x"], "E": ["x"], "A": 1, "B": 2},
